@@ -254,6 +254,34 @@ pub fn o_model(input: &[u8], p: &P) -> Out {
 	let r = catch(|| -> Result<(), (String, String)> {
 		if aspects & A_ONESHOT != 0 {
 			compare_frames(&g.frames, &rg, rg.rows.len(), true)?;
+			// every struct below a character that keeps validity bits keeps one per row, equal to the presence
+			let n = rg.rows.len();
+			for (pi, port) in g.frames.ports.iter().enumerate() {
+				for fo in [false, true] {
+					let d = match (fo, &port.follower) {
+						(false, _) => &port.leader,
+						(true, Some(f)) => f,
+						(true, None) => continue,
+					};
+					let mut bms: Vec<(&str, Option<&arrow2::bitmap::Bitmap>)> = vec![("pre", d.pre.validity.as_ref()), ("pre.position", d.pre.position.validity.as_ref()), ("pre.joystick", d.pre.joystick.validity.as_ref()), ("pre.cstick", d.pre.cstick.validity.as_ref()), ("pre.triggers_physical", d.pre.triggers_physical.validity.as_ref()), ("post", d.post.validity.as_ref()), ("post.position", d.post.position.validity.as_ref())];
+					if let Some(v) = &d.post.velocities {
+						bms.push(("post.velocities", v.validity.as_ref()));
+					}
+					for (name, bm) in bms {
+						if let Some(b) = bm {
+							if b.len() != n {
+								return Err(("struct-validity".into(), format!("ports[{}].{}.{}: validity bitmap has {} bits for {} rows", pi, if fo { "follower" } else { "leader" }, name, b.len(), n)));
+							}
+							for i in 0..n {
+								let present = rg.rows[i].chars[pi][fo as usize].is_some();
+								if b.get_bit(i) != present {
+									return Err(("struct-validity".into(), format!("ports[{}].{}.{} row {}: validity bit {} but the character is {}", pi, if fo { "follower" } else { "leader" }, name, i, b.get_bit(i), if present { "present" } else { "absent" })));
+								}
+							}
+						}
+					}
+				}
+			}
 			if g.start.bytes.0 != rg.start_block {
 				return Err(("start-bytes".into(), "start.bytes differs from the raw Game Start block".into()));
 			}
